@@ -106,7 +106,9 @@ fn gen_sc(r: &mut Rng) -> Sc {
 
 #[derive(Clone, Debug, PartialEq)]
 enum Last {
-    Ttl { at: u64, ttl: u64 },
+    /// `at`: clock before the apply call, `done`: clock after it returned (the TTL was registered
+    /// somewhere in between; on a loaded machine an apply with its fsync can take seconds)
+    Ttl { at: u64, done: u64, ttl: u64 },
     Plain { how: &'static str },
     Deleted,
 }
@@ -157,7 +159,7 @@ async fn run_sc(sc: Sc, dir: PathBuf, seed: u64) -> (Vec<(String, Value)>, Value
                         Act::PutTtl(k, ttl) => {
                             let v = Bytes::from(format!("v{idx}").into_bytes());
                             value_of[k] = v.clone();
-                            (k, Command::Insert { key: key(k), value: v, ttl_secs: Some(ttl) }, Last::Ttl { at: t, ttl })
+                            (k, Command::Insert { key: key(k), value: v, ttl_secs: Some(ttl) }, Last::Ttl { at: t, done: t, ttl })
                         }
                         Act::Put(k) => {
                             let v = Bytes::from(format!("v{idx}").into_bytes());
@@ -180,6 +182,10 @@ async fn run_sc(sc: Sc, dir: PathBuf, seed: u64) -> (Vec<(String, Value)>, Value
                                 // the CAS found the key already expired: the key keeps its state
                                 continue;
                             }
+                            let l = match l {
+                                Last::Ttl { at, ttl, .. } => Last::Ttl { at, done: now_ms(t0), ttl },
+                                other => other,
+                            };
                             last[k] = Some(l);
                             seen_present_at[k] = None;
                             first_absent_at[k] = None;
@@ -200,20 +206,28 @@ async fn run_sc(sc: Sc, dir: PathBuf, seed: u64) -> (Vec<(String, Value)>, Value
             if present {
                 seen_present_at[k] = Some(t);
             } else if first_absent_at[k].is_none() {
-                first_absent_at[k] = Some(t);
+                // clock *after* the read: the key was gone no later than this
+                first_absent_at[k] = Some(now_ms(t0));
             }
         }
         tokio::time::sleep(Duration::from_millis(100)).await;
     }
-    // verdicts
+    // verdicts. Every bound is taken from the clock read on the safe side of the call it is
+    // about (the process may be stalled for seconds between two statements on a loaded machine):
+    // a final cleanup is started, its start time is what "the key was due long ago" is judged by.
+    let final_cleanup_started = now_ms(t0);
+    let _ = sm.lease_background_cleanup().await;
     let many = sc.nkeys > 10;
     for k in 0..sc.nkeys {
         let Some(l) = &last[k] else { continue };
         let present_end = sm.get(&key(k)).ok().flatten().is_some();
         let d = json!({"key": format!("t{k:02}"), "last_write": format!("{l:?}"), "first_seen_absent_at_ms": first_absent_at[k], "last_seen_present_at_ms": seen_present_at[k], "restarted_at_ms": restarted_at, "ttl_keys_in_scenario": sc.nkeys});
         match l {
-            Last::Ttl { at, ttl } => {
+            Last::Ttl { at, done, ttl } => {
+                // registered between `at` and `done`: due no earlier than at + ttl, no later than
+                // done + ttl
                 let due = at + ttl * 1000;
+                let due_latest = done + ttl * 1000;
                 if let Some(a) = first_absent_at[k]
                     && a + 300 < due
                 {
@@ -221,7 +235,7 @@ async fn run_sc(sc: Sc, dir: PathBuf, seed: u64) -> (Vec<(String, Value)>, Value
                     bad.push((format!("{sig}[{engine}]"), d.clone()));
                 }
                 // cleanup runs every 200 ms; allow 1.2 s of slack on top (second granularity)
-                if present_end && sc.end_ms > due + 1400 {
+                if present_end && final_cleanup_started > due_latest + 1400 {
                     let sig = if restarted_at.is_some_and(|r| r < due) {
                         "expired-key-still-present:ttl-lost-over-restart"
                     } else if many {
